@@ -3,7 +3,7 @@
    (class statics such as Rational::flags or the modulus of rmint<K,MG>, namespace statics, function-local statics).
    harness/c18_values.py lists, from the clang AST of the library's current source, EVERY function body of the value classes
    (constructors, destructors, operators, conversions, static members, free functions) with the statics it touches:
-   RaceFreeGen.v (generated) is the list `value_ops`.  This file: the deciders evaluated on it and the theorem that a program
+   gen/RaceFreeGen.v (generated) is the list `value_ops`.  This file: the deciders evaluated on it and the theorem that a program
    whose calls are accepted by the decider and whose operands are thread-private is race-free and sequentially consistent
    per thread, for any number of threads and every interleaving (instance of RaceFreeDisjoint.v). *)
 From Coq Require Import String List Bool Arith Lia.
